@@ -55,7 +55,7 @@ def run(ctx):
     runs.append(("deep", ctx.tlc_design("periph/KVGen", "cfg/KVGen.%s.cfg" % ("deepq" if quick else "deep"), timeout=900, workers=1, tag="deep")))
     if not quick:
         runs.append(("mid", ctx.tlc_design("periph/KVGen", "cfg/KVGen.mid.cfg", timeout=3000, heap="12g", workers=1, tag="mid")))
-    sim = ctx.tlc("periph/KVGen", "cfg/KVGen.sim.cfg", simulate=(12 if quick else 400), depth=10,
+    sim = ctx.tlc("periph/KVGen", "cfg/KVGen.sim.cfg", simulate=(6 if quick else 150), depth=10,
                   workers=2, timeout=1500, tag="sim")
     if sim.violated or sim.error:
         raise Infra("simulation of KVGen failed: violated=%s error=%s\n%s" % (sim.violated, sim.error, sim.out[-2000:]))
@@ -120,7 +120,7 @@ def run(ctx):
              "(3 keys, <=%d calls)%s and every successor of the states on %d seeded random behaviours of 10 calls (7-key instance); each executed on MemDB and GoLevelDB, "
              "each sequence writing an empty value also with a nil slice"
              % ("5 keys/2 values/3 prefixes/4 starts" if quick else "7 keys/3 values/5 prefixes/8 starts", 4, 6 if quick else 7,
-                "" if quick else ", the 5-key instance with <=5 calls", 12 * 2 if quick else 400 * 2),
+                "" if quick else ", the 5-key instance with <=5 calls", 6 * 2 if quick else 150 * 2),
     ), assumptions=[
         "Key()/Value() are only observed on a positioned iterator or right after IteratorPrefixWithStart (where the "
         "interface offers no validity test); their value after Next() returned false is not compared",
